@@ -11,7 +11,7 @@ from ..core import SubCheck, Violation, cut, require
 from ..oracles import tables as otab
 from ..oracles.geometry import R_EARTH
 from ..rng_script import ScriptExhausted, scripted
-from ..strategies import LAYOUTS, as_layout, same_values, bfloat, block_edge_sizes, log_uniform, near, ulp_step, unit_closed
+from ..strategies import LAYOUTS, as_layout, same_values, bfloat, block_edge_sizes, harvested_edge_sizes, log_uniform, near, ulp_step, unit_closed
 from .c04 import BETA_MAX, BETA_MIN, B_NODES, log_e_st, version_st
 
 PROPERTY_ID = "C07"
@@ -273,7 +273,7 @@ def _large_cases(tier):
     import os
 
     seed = int(os.environ.get("VERIF_SEED", "1") or "1")
-    for n in block_edge_sizes(tier):
+    for n in sorted(set(block_edge_sizes(tier)) | set(harvested_edge_sizes(["simulation/eas_optical/eas.py", "utils/misc.py"], cap=2**25 + 1))):
         yield {"n": int(n), "seed": seed, "cut": int((seed * 7919 + n // 3) % n)}
 
 
